@@ -229,7 +229,7 @@ func init() {
 	ps := &PropSpec{
 		ID: "C08", Level: "exploration",
 		Verdict:       []string{"diff."},
-		Rule:          "one generated container-step sequence (arrays, maps, nested, large and boundary-sized values; handles kept across commits, nested handles re-obtained after eviction, all handles after reopen) is executed under the base schedule 'no commit until the end' and under >= 4 other placements of {commit, commit+drop-cache, drop-cache, reopen} (always including 'after every step' for commit+drop-cache and for reopen); step results must be equal, every execution must pass content/structure/recovery oracles, and in the byte-identical profile (no composite types) the final registers must be byte-identical; in the compact profile only logical content and order against the current seed are compared. Non-trivial = >= 3 slabs and the schedules fired >= 10 actions; distinct by trace hash",
+		Rule:          "one generated container-step sequence (arrays, maps, nested, large and boundary-sized values; handles kept across commits, nested handles re-obtained after eviction, all handles after reopen) is executed under the base schedule 'no commit until the end' and under >= 4 other placements of {commit, commit+drop-cache, drop-cache, reopen, commit+evict+bulk preload (serial or parallel, ids that do not exist in between), commit+evict+a traversal during which one ledger read or element-decoder call fails} (always including 'after every step' for commit+drop-cache and for reopen); step results must be equal, every execution must pass content/structure/recovery oracles, and in the byte-identical profile (no composite types) the final registers must be byte-identical; in the compact profile only logical content and order against the current seed are compared. Non-trivial = >= 3 slabs and the schedules fired >= 10 actions; distinct by trace hash",
 		ExpectedReach: []string{"sched.commit+drop", "sched.reopen", "sched.drop", "profile.byte-identical", "profile.compact"},
 	}
 	type aux struct {
